@@ -6,6 +6,7 @@ import (
 	"bytes"
 	"context"
 	"crypto/x509"
+	"encoding/base64"
 	"encoding/hex"
 	"encoding/json"
 	"fmt"
@@ -172,9 +173,31 @@ func buildQuote(class string) ([]byte, error) {
 		q := proto.Clone(m.Quote).(*tpb.QuoteV4)
 		q.TdQuoteBody.MrTd = q.TdQuoteBody.MrTd[:31]
 		return proto.Marshal(&tpmpb.Attestation{TeeAttestation: &tpmpb.Attestation_TdxAttestation{TdxAttestation: q}})
-	case "certtable_extra":
-		t := &abi.CertTable{Entries: []abi.CertTableEntry{{GUID: uuid.MustParse(sev.GCEFwCertGUID), RawCert: quoteBlob}}}
-		return t.Marshal(), nil
+	case "certtable_extra", "certtable_extra_hex", "certtable_extra_b64", "certtable_extra_b64nl", "certtable_extra_b64wrap", "certtable_extra_b64crlf":
+		// (a 300-byte entry so that the base64 text spans several lines)
+		t := &abi.CertTable{Entries: []abi.CertTableEntry{{GUID: uuid.MustParse(sev.GCEFwCertGUID), RawCert: quoteBlob}, {GUID: uuid.MustParse(abi.VcekGUID), RawCert: bytes.Repeat([]byte("vcek bytes "), 28)}}}
+		raw := t.Marshal()
+		wrap := func(s string, n int, eol string) string {
+			var b strings.Builder
+			for len(s) > n {
+				b.WriteString(s[:n] + eol)
+				s = s[n:]
+			}
+			return b.String() + s + eol
+		}
+		switch strings.TrimPrefix(class, "certtable_extra") {
+		case "_hex":
+			return []byte(hex.EncodeToString(raw)), nil
+		case "_b64":
+			return []byte(base64.StdEncoding.EncodeToString(raw)), nil
+		case "_b64nl":
+			return []byte(base64.StdEncoding.EncodeToString(raw) + "\n"), nil
+		case "_b64wrap":
+			return []byte(wrap(base64.StdEncoding.EncodeToString(raw), 76, "\n")), nil
+		case "_b64crlf":
+			return []byte(wrap(base64.StdEncoding.EncodeToString(raw), 64, "\r\n")), nil
+		}
+		return raw, nil
 	case "certtable_noextra":
 		t := &abi.CertTable{Entries: []abi.CertTableEntry{{GUID: uuid.MustParse(abi.VcekGUID), RawCert: []byte("some vcek bytes")}}}
 		return t.Marshal(), nil
@@ -275,7 +298,7 @@ func localOf(r srcRow) []byte {
 		return rawBlob
 	case strings.HasPrefix(r.Evlog, "var_ok"):
 		return varBlob
-	case r.Quote == "snp_extra" || r.Quote == "snp_bare_extra" || r.Quote == "certtable_extra":
+	case r.Quote == "snp_extra" || r.Quote == "snp_bare_extra" || strings.HasPrefix(r.Quote, "certtable_extra"):
 		return quoteBlob
 	}
 	return nil
@@ -402,7 +425,7 @@ func checkExtractCommand(run *vk.Run) {
 			}
 		}
 	}
-	for _, class := range []string{"snp_extra", "certtable_extra", "snp_bare_extra_product", "snp_bare_extra"} {
+	for _, class := range []string{"snp_extra", "certtable_extra", "snp_bare_extra_product", "snp_bare_extra", "certtable_extra_b64wrap", "certtable_extra_b64crlf", "certtable_extra_hex"} {
 		q, err := buildQuote(class)
 		if err != nil {
 			run.Infra(err)
@@ -443,6 +466,56 @@ func checkExtractCommand(run *vk.Run) {
 			if len(rg.urls) > 0 || prov.calls > 0 {
 				run.Violation("network-despite-local:command:"+class, fmt.Sprintf("`extract att.bin` with local evidence in the file (%s) consulted the quote provider (%d calls) / the network (%v)", class, prov.calls, rg.urls), rep)
 			}
+		}
+	}
+}
+
+// checkExtractOnRealFiles: the extract command with the production file layer (cmd.OSIO) on real files;
+// the output file holds the evidence byte for byte whatever an earlier run (the default output name is
+// a fixed one) left under that name: longer, shorter, or nothing.
+func checkExtractOnRealFiles(run *vk.Run) {
+	dir, err := os.MkdirTemp("", "vk-c16-out-")
+	if err != nil {
+		run.Infra(err)
+		return
+	}
+	defer os.RemoveAll(dir)
+	q, err := buildQuote("snp_extra")
+	if err != nil {
+		run.Infra(err)
+		return
+	}
+	att := filepath.Join(dir, "att.bin")
+	os.WriteFile(att, q, 0o600)
+	for _, earlier := range []struct {
+		name string
+		data []byte
+	}{{"none", nil}, {"longer", bytes.Repeat([]byte("stale "), 90)}, {"shorter", []byte("x")}, {"same-length", bytes.Repeat([]byte{'y'}, len(quoteBlob))}} {
+		out := filepath.Join(dir, "out-"+earlier.name+".bin")
+		if earlier.data != nil {
+			os.WriteFile(out, earlier.data, 0o644)
+		}
+		prov := &provider{fail: true}
+		rg := &recGetter{}
+		b := &gcmd.Backend{Getter: rg, IO: gcmd.OSIO{}, Provider: &levelProvider{prov}, MakeEfiVariableReader: func(string) exel.VariableReader { return exel.MakeEfiVarFSReader("/nonexistent-efivarfs") }}
+		root := gcmd.MakeRoot(gcmd.ContextWithBackend(context.Background(), b))
+		root.SetArgs([]string{"extract", att, "--out", out, "--eventlog", "/nonexistent-event-log"})
+		root.SetOut(io.Discard)
+		root.SetErr(io.Discard)
+		root.SilenceErrors, root.SilenceUsage = true, true
+		var xerr error
+		func() {
+			defer func() {
+				if p := recover(); p != nil {
+					xerr = fmt.Errorf("PANIC: %v", p)
+				}
+			}()
+			xerr = root.Execute()
+		}()
+		got, _ := os.ReadFile(out)
+		run.Case("extract-real-files:"+earlier.name, true)
+		if xerr != nil || !bytes.Equal(got, quoteBlob) {
+			run.Violation("local-evidence-not-returned:command:output-file", fmt.Sprintf("`extract ATT --out FILE` on real files, FILE holding an earlier output (%s, %d bytes): FILE now holds %d bytes that are not the certificate-table entry byte for byte (error: %v)", earlier.name, len(earlier.data), len(got), xerr), map[string]any{"earlier": earlier.name})
 		}
 	}
 }
@@ -623,8 +696,9 @@ func RunC16(run *vk.Run) {
 	checkEvents(run)
 	run.Exhaustive = true
 	checkExtractCommand(run)
+	checkExtractOnRealFiles(run)
 	checkLargeEventLogs(run)
-	run.Rule = "every row of Discovery.tla: 13 event-log shapes x 12 quote formats x 4 providers x 3 getters x forced/unforced (real event-log files, efivarfs directory, quotes, recording provider/getter), and every variable name of up to 4 path components over {plain, .., /, link-out, link-in, missing} resolved by the real EfiVarFSReader on a directory tree with real symbolic links and sentinel files outside the root; plus injectivity / round trip of object names and the round trip of the events the signer emits"
+	run.Rule = "every row of Discovery.tla: 13 event-log shapes x 17 quote formats (incl. the bare certificate table as hex / base64 text in five layouts) x 4 providers x 3 getters x forced/unforced (real event-log files, efivarfs directory, quotes, recording provider/getter), and every variable name of up to 4 path components over {plain, .., /, link-out, link-in, missing} resolved by the real EfiVarFSReader on a directory tree with real symbolic links and sentinel files outside the root; plus injectivity / round trip of object names and the round trip of the events the signer emits"
 }
 
 // ---- object names ----
